@@ -488,11 +488,24 @@ func intsEq(a, b []int) bool {
 	return true
 }
 
-// scaleOf derives the number of real rows per abstract key from the behaviour itself, so
-// that a replay of the same line uses the same tables.
-func scaleOf(raw []byte) int {
+// scaleOf derives the number of real rows per abstract key from the behaviour itself (its
+// commands and commit table, not the bytes of the line), so that a replay of the same
+// behaviour from a replay file uses the same tables.
+func scaleOf(doc *Doc) int {
 	h := fnv.New32a()
-	h.Write(raw)
+	for _, c := range doc.C {
+		var content, parents []int
+		json.Unmarshal(c[0], &content)
+		json.Unmarshal(c[1], &parents)
+		fmt.Fprint(h, content, sorted(parents))
+	}
+	for _, st := range doc.H {
+		for _, o := range st.Op {
+			var v interface{}
+			json.Unmarshal(o, &v)
+			fmt.Fprint(h, v)
+		}
+	}
 	if h.Sum32()%4 == 3 {
 		return 100 // 3 keys -> 300 rows: two blocks
 	}
@@ -544,7 +557,7 @@ func Replay(i int, raw []byte) child.Result {
 		co.Parents = sorted(co.Parents)
 		table[id+1] = co
 	}
-	w := &world{nk: len(table[1].Content), s: scaleOf(raw), idOf: map[string]int{}}
+	w := &world{nk: len(table[1].Content), s: scaleOf(&doc), idOf: map[string]int{}}
 	work, err := os.MkdirTemp("", "system2")
 	if err != nil {
 		return child.Inconclusive(err)
@@ -604,6 +617,7 @@ func Replay(i int, raw []byte) child.Result {
 
 	ops := []string{}
 	labels := map[string]bool{}
+	optionalLogs := map[string]int{} // ref of L -> log entries of the pinned code that a repository may lack
 	for n, st := range doc.H {
 		if len(st.Op) != 5 {
 			return child.Inconclusive(fmt.Errorf("step %d: malformed op", n))
@@ -711,7 +725,10 @@ func Replay(i int, raw []byte) child.Result {
 		alts := mx.alts()
 		realMerge := (name == "merge" || name == "pull") && kind == "real"
 		// ---- exit status and reported rejections
-		if (runErr == nil) != st.Ok {
+		// (the statement asks that a rejected update be reported; which exit status a fetch or
+		// push with a reported rejection has is not demanded)
+		statusFree := (name == "fetch" || name == "push") && len(st.Rej) > 0
+		if (runErr == nil) != st.Ok && !statusFree {
 			if realMerge && runErr != nil {
 				// the model's base merges cleanly; another admissible base conflicts, and the
 				// command then needs its interactive tool: the behaviour ends here, no verdict
@@ -845,6 +862,25 @@ func Replay(i int, raw []byte) child.Result {
 						return fail(sd.tag + ".objects-unreadable")
 					}
 					return fail(sd.tag + ".commit-content")
+				}
+			}
+			// The pinned code logs a "fast-forward" of a branch onto the commit it already is
+			// at (merging an ancestor); no statement demands or forbids that entry, so a
+			// repository may lack it: optional entries are counted per ref.
+			if sd.tag == "L" {
+				for r := range optionalLogs {
+					if _, ok := sd.o.Logs[r]; !ok {
+						delete(optionalLogs, r)
+					}
+				}
+				if kind == "self-ff" {
+					r := "heads/" + b
+					if sd.o.Logs[r]+optionalLogs[r]+1 == sd.logs[r] {
+						optionalLogs[r]++
+					}
+				}
+				for r, n := range optionalLogs {
+					sd.o.Logs[r] += n
 				}
 			}
 			if !reflect.DeepEqual(sd.o.Logs, sd.logs) {
